@@ -3643,6 +3643,8 @@ class __implementations__:
     @implements(numpy.interp)
     def interp(x, xp, fp, left=None, right=None):
         index = numpy.searchsorted(xp, x)
+        if len(xp) > 1:
+            index = index + numpy.equal(x, xp[0]) # x == xp[0] belongs to the first interval, not to the left extension
         _xp = numpy.concatenate([[xp[0]], xp])
         _fp = numpy.concatenate([[fp[0]], fp])
         _gp = numpy.concatenate([[0.], numpy.diff(fp) / numpy.diff(xp), [0.]])
